@@ -296,6 +296,14 @@ class Interp:
             parts.append(lnot(lp.cont))
         return land(*parts)
 
+    def frame_flags(self):
+        f = self.frame
+        parts = [lnot(f.returned)]
+        for lp in f.loops:
+            parts.append(lnot(lp.broke))
+            parts.append(lnot(lp.cont))
+        return land(*parts)
+
     def add_oblig(self, kind, desc, viol):
         viol = simp_bool(viol) if not isinstance(viol, bool) else viol
         if viol is False:
@@ -374,8 +382,8 @@ class Interp:
         fr = Frame(func, func.module)
         # bind parameters
         a = node.args
-        if a.vararg or a.kwarg:
-            raise CannotEncode(f'*args/**kw in {func.qualname}')
+        if a.vararg:
+            raise CannotEncode(f'*args in {func.qualname}')
         params = [p.arg for p in a.posonlyargs + a.args]
         annots = {p.arg: p.annotation for p in a.posonlyargs + a.args + a.kwonlyargs}
         allargs = list(args)
@@ -384,10 +392,19 @@ class Interp:
         if len(allargs) > len(params):
             raise CannotEncode(f'too many arguments for {func.qualname}')
         bound = dict(zip(params, allargs))
+        extra_kw = {}
+        known = set(params) | {p.arg for p in a.kwonlyargs}
         for k, v in kwargs.items():
             if k in bound:
                 raise CannotEncode(f'duplicate argument {k}')
-            bound[k] = v
+            if k not in known:
+                if a.kwarg is None:
+                    raise CannotEncode(f'unexpected keyword {k} for {func.qualname}')
+                extra_kw[k] = v
+            else:
+                bound[k] = v
+        if a.kwarg is not None:
+            bound[a.kwarg.arg] = extra_kw
         defaults = a.defaults
         for p, d in zip(params[len(params) - len(defaults):], defaults):
             if p not in bound:
@@ -427,6 +444,12 @@ class Interp:
         fr.vars.update(bound)
         if func.is_generator:
             fr.yields = []
+        # the callee runs only where the caller is active: return/break/continue flags are per frame, so they are
+        # handed down as a guard (branch guards and the raise flag are global already)
+        cflags = self.frame_flags() if self.frames else True
+        pushed_flags = cflags is not True
+        if pushed_flags:
+            self.guards.append(cflags)
         self.frames.append(fr)
         self.call_depth += 1
         try:
@@ -449,6 +472,8 @@ class Interp:
                 pass
         finally:
             self.frames.pop()
+            if pushed_flags:
+                self.guards.pop()
             self.call_depth -= 1
             for k, v in fused_saved.items():
                 if v is None:
@@ -579,7 +604,13 @@ class Interp:
         self.eval(st.value)
 
     def st_Import(self, st):
-        pass
+        if self.frame.func is None:
+            return
+        for a in st.names:
+            if a.asname is None and '.' in a.name:
+                raise CannotEncode('dotted import inside a function')
+            m = self.reg.module(a.name)
+            self.assign_name(a.asname or a.name, m if m is not None else self.models.external(a.name, None), unconditional=True)
 
     def st_ImportFrom(self, st):
         pass
@@ -717,6 +748,7 @@ class Interp:
         npush = 0
         try:
             for it in range(bound + 1):
+                lp.cont = False
                 if self.inactive():
                     break
                 c = simp_bool(self.truth(self.eval(st.test)))
@@ -747,6 +779,7 @@ class Interp:
         self.frame.loops.append(lp)
         try:
             for g, v in items:
+                lp.cont = False
                 if self.inactive():
                     break
                 g = simp_bool(g)
@@ -881,6 +914,8 @@ class Interp:
                 if v is UNSET:
                     raise CannotEncode(f'unset field {attr}')
                 return v
+            if attr == '__attrs_init__' and obj.cls.is_attrs:
+                return ModelMethod(obj, '__attrs_init__')
             m = obj.cls.find_method(self, attr)
             if m is not None:
                 if any(d in ('property',) for d in m.decorators):
@@ -926,7 +961,11 @@ class Interp:
         kwargs = {}
         for k in node.keywords:
             if k.arg is None:
-                raise CannotEncode('**kwargs call')
+                d = self.eval(k.value)
+                if not isinstance(d, dict):
+                    raise CannotEncode('**kwargs of non-dict')
+                kwargs.update(d)
+                continue
             kwargs[k.arg] = self.eval(k.value)
         return self.call(fn, args, kwargs)
 
@@ -1047,6 +1086,8 @@ class Interp:
     def truth(self, v):
         if isinstance(v, MaybeNone):
             return land(v.present, self.truth(v.value))
+        if isinstance(v, PyChoice):
+            return lor(*[land(g, self.truth(x)) for g, x in v.alts])
         if isinstance(v, (bool, np.bool_)):
             return bool(v)
         if v is None:
@@ -1335,6 +1376,11 @@ class Interp:
             return r if isinstance(op, ast.In) else lnot(r)
         if isinstance(a, MaybeNone) or isinstance(b, MaybeNone):
             raise CannotEncode('comparison of Optional')
+        if isinstance(a, PyChoice) or isinstance(b, PyChoice):
+            if not isinstance(op, (ast.Eq, ast.NotEq)):
+                raise CannotEncode('ordering of a guarded choice')
+            r = lor(*[land(g1, g2, self.compare(ast.Eq(), v1, v2)) for g1, v1 in PyChoice.of(a) for g2, v2 in PyChoice.of(b)])
+            return simp_bool(r if isinstance(op, ast.Eq) else lnot(r))
         if isinstance(a, CVal) or isinstance(b, CVal):
             a2, b2 = self.as_c_operand(a), self.as_c_operand(b)
             ct = self.c_common(a2.ctype, b2.ctype)
@@ -1372,6 +1418,8 @@ class Interp:
         return bool(_PY_CMPS[type(op)](a, b))
 
     def identity(self, a, b):
+        if isinstance(a, PyChoice) or isinstance(b, PyChoice):
+            return simp_bool(lor(*[land(g1, g2, self.identity(v1, v2)) for g1, v1 in PyChoice.of(a) for g2, v2 in PyChoice.of(b)]))
         if isinstance(a, MaybeNone) and b is None:
             return lnot(a.present)
         if isinstance(b, MaybeNone) and a is None:
